@@ -147,6 +147,34 @@ Theorem C14_recalc_inject_read : forall img off es es',
 Proof. exact recalc_inject_read. Qed.
 Print Assumptions C14_recalc_inject_read.
 
+(* ---- injecting again what was read; re-writing the table in place (cmds/fittool) ---- *)
+
+(* inject, read the entries back, inject what was read at the same place: the image does not change
+   (the pointer, the table and the data are re-written with the bytes they already hold) *)
+Theorem C14_reinject_identity : forall img off es, layout_ok img off es = true ->
+  forallb entry_ok es = true -> first_ok es = true ->
+  let img' := fst (inject img es off) in
+  get_entries img' = Ok (map as_read es) /\ inject img' (map as_read es) off = (img', 0).
+Proof. exact reinject_identity. Qed.
+Print Assumptions C14_reinject_identity.
+
+(* Table.WriteToFirmwareImage (fittool add_raw_headers / set_raw_headers / remove_headers) on an image
+   with an injected FIT: a new table of any length that fits below the end of the image and keeps clear of
+   the FIT pointer, whose first header carries the magic and its own entry count, is written where the
+   pointer says; no byte outside the new table changes; the table found and read back is the new one *)
+Theorem C14_write_table : forall img off es hs, layout_ok img off es = true ->
+  forallb entry_ok es = true -> first_ok es = true ->
+  forallb wf_hdr hs = true -> table_first_ok hs = true ->
+  off + hdr_len * zlen hs <= zlen img ->
+  disjoint (zlen img - fit_pointer_offset, 8) (off, hdr_len * zlen hs) = true ->
+  let img1 := fst (inject img es off) in
+  exists img2, write_table img1 hs = Ok (img2, 0) /\ zlen img2 = zlen img /\
+    (forall k, in_range (Z.of_nat k) (off, hdr_len * zlen hs) = false ->
+       nth_error img2 k = nth_error img1 k) /\
+    table_range img2 = Ok (off, off + hdr_len * zlen hs) /\ get_table img2 = Ok hs.
+Proof. exact inject_write_table. Qed.
+Print Assumptions C14_write_table.
+
 (* ---- non-vacuity ---- *)
 
 (* the examples of calc_offset.go *)
@@ -179,6 +207,23 @@ Example ex_recalc_inject_read : exists es',
 Proof.
   eexists. split; [vm_compute; reflexivity|].
   vm_compute. repeat split; try reflexivity. discriminate.
+Qed.
+
+(* add_raw_headers on the image of ex_recalc_inject_read: one more entry, the count updated *)
+Definition ex_es' : list entry := match recalc ex_es with Ok l => l | _ => [] end.
+Definition ex_img1 : bytes := fst (inject ex_img ex_es' 256).
+Definition ex_hs' : list hdr :=
+  match get_table ex_img1 with
+  | Ok hs => set_size (hd (ex_h 0 0) hs) [8; 0; 0] :: tl hs ++ [ex_h 77 127]
+  | _ => []
+  end.
+Example ex_write_table :
+  table_first_ok ex_hs' = true /\ forallb wf_hdr ex_hs' = true /\ zlen ex_hs' = 8 /\
+  exists img2, write_table ex_img1 ex_hs' = Ok (img2, 0) /\ bytes_eqb img2 ex_img1 = false /\
+               get_table img2 = Ok ex_hs'.
+Proof.
+  split; [vm_compute; reflexivity|]. split; [vm_compute; reflexivity|]. split; [vm_compute; reflexivity|].
+  eexists. split; [vm_compute; reflexivity|]. split; vm_compute; reflexivity.
 Qed.
 
 (* the table directly below the pointer, data adjacent to the table and at offset 0 *)
